@@ -158,7 +158,7 @@ def parseVarItem (v : VarCfg) : Option VarItem :=
 /-- `CreateRPCRule` -/
 def createRpc (hs : List HeaderCfg) : Rule :=
   let fast := match hs with
-    | [h] => if h.name = rpcRouteMatchKey then h.value else []
+    | [h] => if h.name = rpcRouteMatchKey ∧ h.regex = false then h.value else []
     | _ => []
   .rpc fast (createCommon hs)
 
@@ -459,10 +459,10 @@ def ruleHolds (rx : RxOracle) (req : Req) (m : MatchCfg) : Bool :=
         -- DSL rule: every expression that is non-empty and compiles evaluates to true
         m.dsl.all (fun d => d.empty || !d.ok || req.dsl d.id == some true)
       else
-        -- RPC rule; a lone `service` matcher keeps the legacy "simple sofa rule" meaning
+        -- RPC rule; a lone exact `service` matcher keeps the legacy "simple sofa rule" meaning
         match m.headers with
         | [h] =>
-          if h.name = ['s', 'e', 'r', 'v', 'i', 'c', 'e'] ∧ h.value ≠ [] then
+          if h.name = ['s', 'e', 'r', 'v', 'i', 'c', 'e'] ∧ h.regex = false ∧ h.value ≠ [] then
             match req.hdr h.name with
             | some v => decide (v ≠ []) && (decide (v = h.value) || decide (h.value = ['.', '*']))
             | none => false
